@@ -2,6 +2,8 @@ package hist
 
 import (
 	"fmt"
+
+	"github.com/yorkie-team/yorkie/api/converter"
 	"sort"
 	"strings"
 )
@@ -337,6 +339,78 @@ func CheckMinVVExact(r *Run) []Problem {
 				ps = append(ps, Problem{Kind: "minvv-not-minimum", Step: i, Detail: fmt.Sprintf("call %d (%s) by %s: response vector has %s=%d, the minimum over the %d attached clients' reports is %d", i, t.Kind, me, k, got, len(rows), min)})
 				return ps
 			}
+		}
+	}
+	return ps
+}
+
+// CheckLamportCausal (C06): every change a client pushes carries a lamport
+// greater than that of every change it had applied when it made the change.
+// Conservative reading of "had applied": everything up to the checkpoint of the
+// response BEFORE the previous one of the same attachment (a change may be made
+// while a sync is in flight), snapshots included (a snapshot contains every
+// change up to its checkpoint).
+func CheckLamportCausal(r *Run) []Problem {
+	var ps []Problem
+	log := r.Out.Log
+	type sess struct{ cps []int64 }
+	ss := map[string]*sess{}
+	pushedSeen := map[string]bool{}
+	for i, t := range r.Trace {
+		if t.Req == nil {
+			continue
+		}
+		me := t.Client.String()
+		if t.Kind == "attach" {
+			ss[me] = &sess{}
+		}
+		s := ss[me]
+		if s == nil {
+			continue
+		}
+		p, err := converter.FromChangePack(t.Req)
+		if err == nil && len(s.cps) >= 2 {
+			known := s.cps[len(s.cps)-2]
+			var maxLam int64
+			for _, row := range log {
+				if row.ServerSeq <= known && row.Lamport > maxLam {
+					maxLam = row.Lamport
+				}
+			}
+			for _, c := range p.Changes {
+				k := fmt.Sprintf("%s/%d/%d", me, len(s.cps), c.ClientSeq())
+				if c.ID().Lamport() == 0 || pushedSeen[k] {
+					continue
+				}
+				pushedSeen[k] = true
+				if c.ID().Lamport() <= maxLam && int64(c.ClientSeq()) > 0 {
+					// only changes made after that response: clientSeq beyond what the request before acknowledged
+					ps = append(ps, Problem{Kind: "lamport-not-causal", Step: i, Detail: fmt.Sprintf("call %d: client %s pushes a change with lamport %d although it had applied changes up to serverSeq %d with lamport %d", i, me, c.ID().Lamport(), known, maxLam)})
+					return ps
+				}
+			}
+		}
+		if t.Err == nil && t.Resp != nil && len(t.Resp.Snapshot) > 0 {
+			// a snapshot receiver adopts the largest lamport of the vector that comes with the
+			// snapshot: that vector must reach the lamport of every change the snapshot contains
+			var maxLam, maxVV int64
+			for _, row := range log {
+				if row.ServerSeq <= t.Resp.Checkpoint.ServerSeq && row.Lamport > maxLam {
+					maxLam = row.Lamport
+				}
+			}
+			for _, x := range t.Resp.VersionVector {
+				if x > maxVV {
+					maxVV = x
+				}
+			}
+			if maxVV < maxLam {
+				ps = append(ps, Problem{Kind: "snapshot-vector-lags", Step: i, Detail: fmt.Sprintf("call %d (%s) by %s: snapshot up to serverSeq %d contains a change with lamport %d but the vector sent with it only reaches %d", i, t.Kind, me, t.Resp.Checkpoint.ServerSeq, maxLam, maxVV)})
+				return ps
+			}
+		}
+		if t.Err == nil && t.Resp != nil && !t.Lost {
+			s.cps = append(s.cps, t.Resp.Checkpoint.ServerSeq)
 		}
 	}
 	return ps
